@@ -139,7 +139,12 @@ class TarHelper:
                     f.linkname = f.linkname[8:]
                 f.name = f.name[8:]
                 try:
-                    tar.extract(f, content)
+                    # A hard link shares the inode of an already extracted
+                    # member. Its attributes were set there. Do not let tarfile
+                    # apply them again through the new name. chown/chmod/utime
+                    # follow symbolic links and the new name may be a link to a
+                    # symlink that resolves differently from there.
+                    tar.extract(f, content, set_attrs=not f.islnk())
                 except UnicodeError:
                     raise BuildError("File name encoding error while extracting '{}'".format(f.name),
                                      help="Your locale(7) probably does not (fully) support unicode.")
